@@ -219,15 +219,31 @@ def execute(cfg, V):
             try:
                 text = dl.serialize(doc, fmt)
                 again = dl.deserialize(text, fmt)
+                again2 = _reload_after_edit(dl, text, fmt, again)
             finally:
                 dl.serializers.clear(); dl.serializers.update(saved[0]); dl.deserializers.clear(); dl.deserializers.update(saved[1])
         else:
             text = dl.serialize(doc, fmt)          # the real json / yaml
             again = dl.deserialize(text, fmt)
+            again2 = _reload_after_edit(dl, text, fmt, again)
         same(doc, before, 'document untouched by serialize', obs)
+        same(again2, before, f'{fmt} second load of the same text after the first result was edited by the caller', obs)
+        _undo_edit(again)
         same(again, before, f'{fmt} round trip', obs)
         return obs
     raise KeyError(kind)
+
+
+def _reload_after_edit(dl, text, fmt, first):
+    """the caller edits the first loaded document in place, then loads the same text again: the second result is the document as saved"""
+    if isinstance(first, dict): first['__edited_by_caller__'] = 1
+    elif isinstance(first, list): first.append('__edited_by_caller__')
+    return dl.deserialize(text, fmt)
+
+
+def _undo_edit(first):
+    if isinstance(first, dict): first.pop('__edited_by_caller__', None)
+    elif isinstance(first, list) and first and first[-1] == '__edited_by_caller__': first.pop()
 
 
 def representable(d):
